@@ -74,7 +74,7 @@ A("transcribed, the NaN + ignores-mask clause is unspecified), C19 (declared nam
 A("oracle only), C20 (the regridding is `reproject`; adaptive: no value check), dask clauses of C01 / C08 / C10 (payloads")
 A("are computed before comparison; laziness itself is not modelled).\n")
 A("### 0.3 Seeded changes: which checks catch which changes\n")
-A(f"{len(seeds)} changes (3 per property, and a second round of 3 for C01, C08, C11-C16) were produced by fresh sub-agents that saw")
+A(f"{len(seeds)} changes (three rounds of 3 per property) were produced by fresh sub-agents that saw")
 A("only the property text and a scratch worktree, confirmed by me in that worktree (demo passes clean / fails patched, pinned")
 A("suite's stable set still passes), stored under `seeded/<id>-<k>/` and run against the check with `tools/try_seed.sh` (apply")
 A(f"to /repo, check, `git checkout -- .`).  All {len(seeds)} are detected by the current checks (`tools/rerun_seeds.py` re-runs them")
@@ -94,7 +94,12 @@ A("integer-sliced and rebinned *source* cubes (C06-1/3, C10-3); operating on the
 A("than twice on the parent, and looking at the parent again afterwards (C19-2, C07-1, C13-4); units / scales / argument")
 A("types other than the default (C02-2, C04-2, C09-3, C19-1, C14-4, numpy integers C01-5); argument variants of the same")
 A("method (C07-2, C18-3); dimensionalities the quick tier skipped (C12-6, C19-3); oracles must not read the value under")
-A("test through the same library path (C17-3).\n")
+A("test through the same library path (C17-3, C18-8: a helper of the implementation used as oracle hides a defect in that")
+A("helper, so its refusals are judged against the generator's own knowledge of validity); inputs that are themselves results")
+A("(already-sliced cubes with a recorded array shape, C01-9); asking an object about itself BEFORE deriving from it (C11-9:")
+A("a cache copied into the result; `poke()` now does this in nine modules); payload dtypes other than float64 (C20-9);")
+A("'wrong in the same multiset' inputs (C13-8: right lengths on the wrong aligned axes); degenerate extents on every axis at")
+A("once (C18-8); index tuples that stop before the interesting axis (C12-9).\n")
 A(f"### 0.4 Genuine defects repaired in /repo (`fix:` commits; the pinned suite passes 174/174 after each)\n")
 for x in kf['fixed']:
     A("* " + x[len('fixed: '):])
@@ -115,7 +120,9 @@ A("`common_axis_coords` pairs the coordinates of different cubes by position, so
 A("sets of coordinates are mixed or raise (the harness gives all cubes of a sequence one coordinate structure); the mapping")
 A("setter of a WCS-backed ExtraCoords refuses cube pixel axes >= the extra WCS's own pixel dimensions; the compound wrapper's")
 A("`pixel_axis_names` raises when members name a shared pixel axis differently; `np.allclose`'s default rtol makes the")
-A("compound wrapper's shared-axis consistency check looser far from the origin; an empty NDCubeSequence has no shape.\n")
+A("compound wrapper's shared-axis consistency check looser far from the origin; an empty NDCubeSequence has no shape; a")
+A("WCS-backed ExtraCoords all of whose pixel dimensions are indexed away becomes an empty ExtraCoords and its coordinates do")
+A("not reach `global_coords` (C03 quantifies over lookup-table extra coords; partially dropped WCS-backed ones do get there).\n")
 A("### 0.6 False alarms of my own checks (corrected in the machinery, never listed as findings)\n")
 A("* The parser of Coq's output did not match `(313%Z, 2%Z)` (printed under `Open Scope Q_scope`), so the correspondence")
 A("  of C09 / C14 / C15 / C16 was silently ignored for a while: regex fixed and a residue check added (anything left over")
